@@ -1,12 +1,12 @@
 # C13: notification_queue under a deterministic two-context scheduler (lib/sched.hpp), needs hook 1 (yield points in notification_queue.hpp)
 target('c13_race', 'engines/comp/c13_race.cpp',
-       quick=dict(cases=160000, size=60),
-       thorough=dict(cases=2000000, size=80))
+       quick=dict(cases=80000, size=60),
+       thorough=dict(cases=1000000, size=80))
 # exhaustive enumeration of complete schedule trees; thorough tier only (quick: 0 cases). parts == procs; cases == number of
-# trees of dfs_space() (35904).
+# trees of dfs_space() (17952).
 target('c13_race_dfs', 'engines/comp/c13_race.cpp',
        quick=dict(cases=0),
-       thorough=dict(cases=35904, size=10, procs=8, opts={'mode': 'dfs', 'parts': 8}))
+       thorough=dict(cases=17952, size=10, procs=8, opts={'mode': 'dfs', 'parts': 8}))
 prop('C13', ['c13_race', 'c13_race_dfs'], 'comp',
      rule='a case = one of 13 priority partitions (levels of 1 characteristic use the two-flag specialisation; <5>, <9> spread one level over '
           'several queue bytes), a sequential start-up (0..5 operations), a producer program of 0..3 queue_notification/queue_indication, a '
@@ -14,8 +14,10 @@ prop('C13', ['c13_race', 'c13_race_dfs'], 'comp',
           'interleaving or interrupt nesting in either direction; non-trivial = a context switch happens between a load and a later store of '
           'the same queue byte inside one operation; distinct = distinct serialised (programs, schedule). With exclude=F-13 the preemptions that '
           'let the other context store into such a window are dropped (case counted in excluded_known). Target c13_race_dfs (thorough only) '
-          'enumerates depth first EVERY schedule (free interleaving and nesting in both directions) of every program pair with up to 2+2 '
-          'operations on <1>, <2>, <1,1> from every start state and on <5> (characteristics 0, 3, 4) from four start states',
+          'enumerates depth first EVERY schedule (free interleaving and nesting in both directions) of every pair of a producer program of 1..2 '
+          'requests with a consumer program of one dequeue, two dequeues, or two dequeues with a confirmation in between, on <1>, <2>, <1,1> from '
+          'every start state (every subset of pending requests, with and without outstanding confirmation) and on <5> (characteristics 0, 3, 4: '
+          'two of them share a queue byte) from four start states',
      technique='deterministic schedule exploration (rapidcheck generated schedules + bounded exhaustive depth-first enumeration) with a linearizability oracle against the documented queue behaviour',
      level_text='every generated or enumerated interleaving is executed on the real queue; the observed history (results and real-time order) '
                 'followed by a sequential drain must be linearizable with respect to: queue_x returns true iff the request is not pending, '
